@@ -325,6 +325,7 @@ class VWorld:
         self.on_killed: list[Callable] = []
         self.interrupted = 0              # number of interrupts delivered to the parent so far (C14)
         self.staged: Optional[list] = None
+        self.draining: set = set()
 
     # ---- bookkeeping
     def record(self, *ev):
@@ -514,7 +515,43 @@ class VWorld:
                 return True
         return False
 
+    def observe_drain(self, q: VQueue):
+        """Non-result queue in 'choice' mode (the log queue): the parent drains it in a loop until
+        Empty, and only the *set* of records a drain picks up matters (each child's records are
+        FIFO).  One choice per drain: for every running child, how many of its pending puts on this
+        queue have happened by now.  The order between children inside one drain is fixed
+        (child index) - it cannot change which records are delivered."""
+        if q.qid in self.draining:
+            self.draining.discard(q.qid)
+            raise _queue.Empty()
+        per_child = []
+        for ch in self.children:
+            if ch.state != 'running':
+                continue
+            idxs = [i for i in range(ch.pc, len(ch.script)) if ch.script[i][0] == 'put' and ch.script[i][1] is q]
+            if idxs:
+                per_child.append((ch, idxs))
+        total = 1
+        for _, idxs in per_child:
+            total *= len(idxs) + 1
+        if total == 1:
+            raise _queue.Empty()
+        c = self.chooser.choose(total, ('drain', q.name, tuple(len(i) for _, i in per_child)), fp=self.fp())
+        any_delivered = False
+        for ch, idxs in per_child:
+            k = c % (len(idxs) + 1)
+            c //= len(idxs) + 1
+            if k:
+                self.commit_upto(ch, idxs[k - 1])
+                any_delivered = True
+        if not any_delivered or not q.buf:
+            raise _queue.Empty()
+        self.draining.add(q.qid)
+        return q.buf.popleft()
+
     def observe_empty_queue(self, q: VQueue, blocking: bool):
+        if q is not self.result_queue and q.mode() == 'choice':
+            return self.observe_drain(q)
         cands = self.deliverable(q) if q.mode() == 'choice' else []
         is_result = q is self.result_queue
         if is_result and blocking:
